@@ -8,15 +8,30 @@ Open Scope N_scope.
 
 (* 1 escape-order | 3 reserved-segment | 4 annotation-qualifier | 10 frontmatter+sentinel | 11 bare-zone-sibling
    12 bare-zone-comments | 13 empty-body-comment | 14 comment-dedent | 15 non-finite float
+   18 single-item list whose item carries a bare constraint operator (re-read as holographic pattern)
    20 holographic value inside a list/map | 21 outside the content model *)
 
 Definition nonfinite (c : str) : bool := str_in c [lit "inf"; lit "-inf"; lit "nan"].
+
+(* a constraint operator that would reach the token stream un-quoted *)
+Fixpoint has_bare_constraint (v : value) : bool :=
+  match v with
+  | VStr s => negb (needs_quotes_pinned s) && memb 8743 s
+  | VList items => existsb has_bare_constraint items
+  | VMap pairs => existsb (fun p => has_bare_constraint (snd p)) pairs
+  | VHolo _ => true
+  | _ => false
+  end.
 
 Fixpoint value_clauses (force : bool) (inlist : bool) (v : value) : list N :=
   match v with
   | VStr s => match scalar_class force s with 0 => [] | c => [c] end
   | VNum true c => if nonfinite c then [15] else []
-  | VList items => flat_map (value_clauses false true) items
+  | VList items =>
+      (match filter (fun x => negb (is_absent x)) items with
+       | [x] => if has_bare_constraint x then [18] else []     (* no comma at depth 1: re-read as a holographic pattern *)
+       | _ => []
+       end) ++ flat_map (value_clauses false true) items
   | VMap pairs => flat_map (fun p => value_clauses (always_quote_key (fst p)) true (snd p)) pairs
   | VHolo _ => if inlist then [20] else []
   | VAbsent => [21]
